@@ -4,6 +4,8 @@ import (
 	"fmt"
 	"go/ast"
 	"go/types"
+	"sort"
+	"strings"
 
 	"verif/engine/core"
 )
@@ -571,4 +573,95 @@ func ownCopyBeforeSessionRewrites(c *core.Ctx, rule string) {
 			"checkPropagateUpdate (which writes next hop, AS path, ORIGINATOR_ID, CLUSTER_LIST, OTC into the path) is reachable without the Adj-RIB-Out having taken its own copy: the rewrite lands in the Loc-RIB's object and shows up in every other table")
 	}
 	c.Check(n >= 2, rule, "callers of checkPropagateUpdate", 0, fmt.Sprintf("only %d found", n))
+}
+
+// announcedIdentifierIsTheComparedOne: the collision tie-break compares "our BGP Identifier" with the neighbour's.  Both
+// ends reach the same verdict only if the identifier we compare is the one we announced in our OPEN: everything the
+// OPEN's BGPIdentifier is computed from must be something the tie-break (shouldCeaseOnCollision) reads too.  A default
+// applied on the OPEN side only ("server router ID when none is configured") makes the two ends close different
+// connections — or both.
+func announcedIdentifierIsTheComparedOne(c *core.Ctx, rule string) {
+	om, sc := c.MustFunc(srv+".(*FSM).openMessage"), c.MustFunc(srv+".(*peer).shouldCeaseOnCollision")
+	if om == nil || sc == nil {
+		return
+	}
+	c.Analysed(om)
+	c.Analysed(sc)
+	idField := c.P.Field("protocols/bgp/packet", "BGPOpen", "BGPIdentifier")
+	cmpReads := c.P.ReadsTransitive(sc)
+	n := 0
+	ast.Inspect(om.Decl.Body, func(nd ast.Node) bool {
+		kv, ok := nd.(*ast.KeyValueExpr)
+		if !ok {
+			return true
+		}
+		id, ok := kv.Key.(*ast.Ident)
+		if !ok || om.Pkg.TypesInfo.ObjectOf(id) != types.Object(idField) {
+			return true
+		}
+		n++
+		reads := map[*types.Var]bool{}
+		ast.Inspect(kv.Value, func(m ast.Node) bool {
+			switch x := m.(type) {
+			case *ast.SelectorExpr:
+				if fv := core.FieldOf(om.Pkg, x); fv != nil {
+					reads[fv] = true
+				}
+			case *ast.CallExpr:
+				if g := c.P.FnOf(core.Callee(om.Pkg, x)); g != nil {
+					for fv := range c.P.ReadsTransitive(g) {
+						reads[fv] = true
+					}
+				}
+			}
+			return true
+		})
+		var extra []string
+		for fv := range reads {
+			if !cmpReads[fv] {
+				extra = append(extra, fv.Name())
+			}
+		}
+		sort.Strings(extra)
+		c.Check(len(extra) == 0, rule, om.Name()+" BGPIdentifier is computed from what the tie-break compares", kv.Pos(),
+			"the identifier announced in the OPEN depends on "+strings.Join(extra, ", ")+", which shouldCeaseOnCollision never reads: the tie-break compares a different identifier than the one the neighbour saw, so the two ends can pick different connections to close")
+		return true
+	})
+	c.Check(n == 1, rule, om.Name()+" sets BGPIdentifier", om.Decl.Pos(), fmt.Sprintf("%d stores found", n))
+}
+
+// knownPeersConnectionReachesAnFSM: a second connection from a configured neighbour is resolved by the collision
+// procedure of an FSM (OPEN exchange, then a Cease NOTIFICATION on the losing connection).  The accept loop closes a
+// connection itself only when there is no such neighbour; any other Close there drops a connection without the
+// NOTIFICATION the neighbour's FSM waits for.
+func knownPeersConnectionReachesAnFSM(c *core.Ctx, rule string) {
+	f := c.MustFunc(srv + ".(*bgpServer).incomingConnectionWorker")
+	if f == nil {
+		return
+	}
+	c.Analysed(f)
+	n := 0
+	ast.Inspect(f.Decl.Body, func(nd ast.Node) bool {
+		call, ok := nd.(*ast.CallExpr)
+		if !ok {
+			return true
+		}
+		se, ok := call.Fun.(*ast.SelectorExpr)
+		if !ok || se.Sel.Name != "Close" {
+			return true
+		}
+		n++
+		unknown := false
+		for _, ft := range core.CtlFactsAt(f, call) {
+			if x, isNil := core.IsNilCheck(f.Pkg, ft.Expr); isNil && ft.Truth {
+				if v, isVar := core.ObjOf(f.Pkg, x).(*types.Var); isVar && strings.HasSuffix(v.Type().String(), "server.peer") {
+					unknown = true
+				}
+			}
+		}
+		c.Check(unknown, rule, fmt.Sprintf("%s Close #%d is for a connection from an unknown source", f.Name(), n), call.Pos(),
+			"the accept loop closes a connection of a configured neighbour itself: that connection never gets an FSM, an OPEN or the Cease NOTIFICATION of the collision procedure")
+		return true
+	})
+	c.Check(n >= 1, rule, f.Name()+" closes connections from unknown sources", f.Decl.Pos(), "no Close found")
 }
